@@ -20,6 +20,8 @@ Definition dec_ev (v : tval) : ev :=
   | 5 => EExpire (a 1%nat) | 6 => EDelete (a 1%nat) | 7 => ERate (vbool (vnth 1 v))
   | 8 => EClose (a 1%nat) | 9 => EOpen (a 1%nat) (a 2%nat) | 10 => ERekey (a 1%nat) | 11 => ERegister
   | 12 => EMsg (a 1%nat) None
+  | 15 => ERestart (if a 1%nat =? 0 then None else Some (a 1%nat - 1))
+  | 16 => EBlackC (a 1%nat) | 17 => EUnblackC (a 1%nat)
   | 14 => ECorrupt (a 1%nat) (vbool (vnth 2 v))
   | _ => EDelAnon (a 1%nat)
   end.
@@ -49,7 +51,7 @@ Definition proj (slots addrs : list N) (so : srv * out) : tval :=
        VL (map (fun k => VL (map VN (proj_conn s k))) slots);
        VL (map (fun x => VN (on (index s x))) (upto (N.to_nat ncli)));
        VL (map (fun a => VN (b2n (banned s a))) addrs);
-       VL (map (fun a => VN (b2n (black s a))) addrs);
+       VL (map (fun a => VN (b2n (blocked s a))) addrs);
        VL (map (fun a => VN (fails s a)) addrs);
        VN ncli ].
 
